@@ -93,8 +93,94 @@ Case decode(Tape &t, long sweep)
 
 std::string to_name(int timeout) { return timeout == model::TO_INFINITE ? "INF" : timeout == model::TO_DEADLINE ? "DEADLINE" : std::to_string(timeout); }
 
+// A child that closes every descriptor it does not know (closefrom-style) takes
+// the library's means of noticing its end away while it keeps running. Whatever
+// the library then does with its timeouts, it must not hand out a status before
+// the child has really ended, and the status must be the true one.
+CaseResult run_closed_exit_handle(Tape &t)
+{
+  CaseResult res;
+  vs_init();
+  vs_reset();
+  vt::World w;
+  w.install();
+  reproc_options opt;
+  memset(&opt, 0, sizeof(opt));
+  opt.redirect.discard = true;
+  opt.stop = { { REPROC_STOP_KILL, 5000 }, { REPROC_STOP_NOOP, 0 }, { REPROC_STOP_NOOP, 0 } };
+  vt::VChild ch;
+  std::string err = vt::start_puppet(w, fw::case_dir() + "/ctl", opt, ch);
+  int64_t close_after = (int64_t) t.range(0, 3000), die_after = close_after + (int64_t) t.range(1, 20000), call_after = close_after + (int64_t) t.range(0, (uint32_t) (die_after - close_after - 1));
+  bool by_signal = t.chance(1, 3);
+  int code = (int) t.pick(256), sig = kTermSignals[t.pick(23)];
+  int form = (int) t.pick(4);  // wait(0), wait(finite), stop({wait,0}), stop({wait, finite})
+  int finite = (int) t.range(1, 30000);
+  res.describe = J().kv("scenario", "child closes every unknown descriptor, then keeps running")
+                     .kv("closes_after", (long long) close_after).kv("ends_after", (long long) die_after).kv("ending", by_signal ? "signal " + std::to_string(sig) : "exit(" + std::to_string(code) + ")")
+                     .kv("call_after", (long long) call_after).kv("call", form == 0 ? "wait(0)" : form == 1 ? "wait(" + std::to_string(finite) + ")" : form == 2 ? "stop(wait/0)" : "stop(wait/" + std::to_string(finite) + ")").str();
+  res.cls("child-closed-its-exit-handle");
+  res.nontrivial = true;
+  res.hash = mix(mix(0xc1e, (uint64_t) form * 4 + by_signal), (uint64_t) close_after * 31 + (uint64_t) die_after);
+  if (!err.empty() || ch.start_result <= 0) {
+    w.uninstall();
+    res.inconclusive("start: " + err);
+    if (ch.p) reproc_destroy(ch.p);
+    return res;
+  }
+  vt::Kid &k = w.kids[(size_t) ch.kid];
+  int64_t t0 = ch.t_start;
+  int want = by_signal ? 128 + sig : code;
+  w.schedule(t0 + die_after, ch.kid, by_signal ? vt::A_RAISE : vt::A_EXIT, (uint32_t) (by_signal ? sig : code), 0);
+  w.advance_to(t0 + close_after);
+  if (!k.pup->cmd(PUP_CLOSE, 9)) {
+    w.uninstall();
+    res.inconclusive("close command: " + k.pup->error());
+    reproc_destroy(ch.p);
+    return res;
+  }
+  w.advance_to(t0 + call_after);
+  int64_t death = t0 + die_after;
+  reproc_stop_actions sa = { { REPROC_STOP_WAIT, form == 2 ? 0 : finite }, { REPROC_STOP_NOOP, 0 }, { REPROC_STOP_NOOP, 0 } };
+  w.call_begins(die_after + 100000);
+  int r = form == 0 ? reproc_wait(ch.p, 0) : form == 1 ? reproc_wait(ch.p, finite) : reproc_stop(ch.p, sa);
+  int64_t ret_at = w.now;
+  bool got_status = false;
+  if (r >= 0) {
+    got_status = true;
+    if (ret_at < death || k.alive) res.fail("status-while-running", "returned status " + std::to_string(r) + " at +" + std::to_string(ret_at - t0) + " ms while the child (which had closed its inherited descriptors at +" + std::to_string(close_after) + ") kept running until +" + std::to_string(die_after));
+    else if (r != want) res.fail("wrong-status", "returned " + std::to_string(r) + ", the child ended with " + std::to_string(want));
+  } else if (r != REPROC_ETIMEDOUT) {
+    res.fail("wait-error", "returned " + std::to_string(r));
+  }
+  // afterwards: the true status, once, and the same again
+  if (res.kind == CaseResult::PASS) {
+    w.advance_to(death + 1);
+    w.call_begins(100000);
+    int r2 = reproc_wait(ch.p, REPROC_INFINITE);
+    if (r2 != want) res.fail(got_status ? "status-changed" : "wrong-status", "a wait after the child's end returned " + std::to_string(r2) + ", the child ended with " + std::to_string(want) + (got_status ? " and " + std::to_string(r) + " had been returned before" : ""));
+    int r3 = reproc_wait(ch.p, 0);
+    if (res.kind == CaseResult::PASS && r3 != r2) res.fail("status-changed", "a further wait returned " + std::to_string(r3));
+    if (res.kind == CaseResult::PASS && vs_is_live(ch.pid)) res.fail("status-without-reap", "a status was returned but the child has not been reaped");
+  }
+  if (!w.trouble.empty()) {
+    res.kind = CaseResult::INCONCLUSIVE;
+    res.msg = "harness: " + w.trouble;
+  }
+  w.uninstall();
+  for (auto &kk : w.kids)
+    if (kk.alive) {
+      kill(kk.pid, SIGKILL);
+      hz::wait_dead(kk.pid, 5000);
+    }
+  reproc_destroy(ch.p);
+  std::string lsig, lp = hz::ledger_problems(ch.fds_before, lsig);
+  if (!lp.empty() && res.kind == CaseResult::PASS) res.fail(lsig, "after destroy: " + lp);
+  return res;
+}
+
 CaseResult run_case(Tape &t, long sweep)
 {
+  if (sweep < 0 && t.chance(1, 12)) return run_closed_exit_handle(t);
   CaseResult res;
   Case c = decode(t, sweep);
   vs_init();
